@@ -533,6 +533,9 @@ def execute(scenario, open_sigs):
             pxs = [n for n, _ in m.obj.cse_name_list]
             if any(re.search(r"_\d+$", n) for n in pxs[nbefore:]):
                 probe("repeated_prefix")
+            if any(re.search(r"_(u_2|0)(_\d+)?$", n) for n in pxs[nbefore:]) and any(
+                    n.endswith("_u_2") or n.endswith("0") for n in pxs[:nbefore]):
+                probe("prefix_collides_with_generated_name")
             events.append([opi, "emit", m.desc["m"], "raised" if raised is not None else text,
                            len(m.obj.cse_name_list)])
             states.add(util.digest_of([[mid, list(mm.obj.cse_name_list and
